@@ -346,6 +346,76 @@ func main() {
 		}
 		suiteDesc = append(suiteDesc, "focus: two-key writer x both-key readers, split@b, all optimistic modes, P=2")
 	}
+	// Topology suite: the same writer / reader pairs (and a pessimistic locking writer) while the
+	// topology changes under them: one deviation per execution out of {a real split of the target
+	// region right before the request is delivered, NotLeader, EpochNotMatch} at any RPC of either
+	// client, plus one preemption.
+	{
+		type pair struct {
+			name   string
+			wr, rd []txnh.Op
+		}
+		pairs := []pair{
+			{"set(a);set(b) || bget(a,b)", []txnh.Op{op("set", "a"), op("set", "b"), op("commit", "")}, []txnh.Op{{Kind: "bget", Keys: []string{"a", "b"}}, op("commit", "")}},
+			{"set(a);set(b) || get(b);get(a)", []txnh.Op{op("set", "a"), op("set", "b"), op("commit", "")}, []txnh.Op{op("get", "b"), op("get", "a"), op("commit", "")}},
+			{"set(a);delete(b) || iter[,c)", []txnh.Op{op("set", "a"), op("delete", "b"), op("commit", "")}, []txnh.Op{{Kind: "iter", Lo: "", Hi: "c"}, op("commit", "")}},
+		}
+		tlayouts := layouts
+		if !run.Thorough() {
+			// quick: the split itself produces the two-region layout; two pairs
+			tlayouts = layouts[:1]
+			pairs = []pair{pairs[0], pairs[2]}
+		}
+		if run.Thorough() {
+			pairs = append(pairs, pair{"insert(b);set(a) || set(b)", []txnh.Op{op("insert", "b"), op("set", "a"), op("commit", "")}, []txnh.Op{op("set", "b"), op("commit", "")}})
+		}
+		for _, bk := range common.BackendsTier(run.Thorough()) {
+			for _, m := range bk.Modes {
+				if m.Pipelined {
+					continue
+				}
+				for _, lo := range tlayouts {
+					for _, pr := range pairs {
+						bk, m, lo, pr := bk, m, lo, pr
+						wops := pr.wr
+						if m.Pessimistic {
+							// a pessimistic writer locks what it writes first
+							wops = append([]txnh.Op{{Kind: "lock", Keys: []string{"a", "b"}}}, pr.wr...)
+						}
+						name := fmt.Sprintf("%s/%s/%s/P1F1/topology: %s", bk.Name, lo.name, m, pr.name)
+						mk := func() *txnh.TxnScenario {
+							sc := &txnh.TxnScenario{ID: name, NewBackend: func() txnh.Backend { return bk.New(lo.splits) }, Keys: keys,
+								Progs: [][]txnh.Program{{{Mode: m, Ops: wops}}, {{Mode: txnh.Mode{}, Ops: pr.rd}}}}
+							sc.SetupFn = func(s *txnh.TxnScenario) { common.SeedKey(s, "a", "base", "b", "base") }
+							sc.MenuFn = func(s *txnh.TxnScenario, e *sched.Event) []sched.Dev {
+								var ds []sched.Dev
+								for _, d := range common.FaultMenu(s.W, e, true) {
+									if d.Kind == txnh.DevHook || d.Name == "not-leader" || (run.Thorough() && d.Name == "epoch-not-match") {
+										ds = append(ds, d)
+									}
+								}
+								return ds
+							}
+							sc.CheckFn = func(s *txnh.TxnScenario, x *sched.Exec) []sched.Violation {
+								t := txnh.ReadTruth(s.W.B, s.Keys)
+								t.Splits, t.Log = lo.splits, s.W.Log()
+								return txnh.AuditSI(s.H, t)
+							}
+							return sc
+						}
+						specs[name] = mk()
+						jobs = append(jobs, sched.Job{Name: name, Run: func(dl time.Time) sched.Report {
+							sc := mk()
+							x := &sched.Explorer{Sc: sc, B: sched.Bounds{P: 1, F: 1, Horizon: 400, EarlyTimers: true, Deadline: dl}}
+							x.Outcome = func(*sched.Exec) string { return sc.OutcomeString() }
+							return x.Explore(false)
+						}})
+					}
+				}
+			}
+		}
+		suiteDesc = append(suiteDesc, fmt.Sprintf("topology: %d two-key writer x reader pairs, every mode, %d layout(s), P=1, one deviation of {real split before delivery, NotLeader (thorough: + injected EpochNotMatch)} at any RPC of either client", len(pairs), len(tlayouts)))
+	}
 	if common.HandleReplay(run, jobs, func(name string) sched.Scenario {
 		if s, ok := specs[name]; ok {
 			return s
@@ -356,7 +426,7 @@ func main() {
 	}
 	res := sched.RunSharded(jobs, budget)
 	common.Finish(run, jobs, res, common.FinishOpts{
-		Bounds: map[string]any{"clients": 2, "txns_per_client": 1, "suites": suiteDesc, "faults": 0, "keys": keys, "layouts": []string{"1region", "split@b"}},
+		Bounds: map[string]any{"clients": 2, "txns_per_client": 1, "suites": suiteDesc, "faults": "0 (1 topology deviation in the topology suite)", "keys": keys, "layouts": []string{"1region", "split@b"}},
 		Rule: "every pair of transaction programs (<= depth steps each from the per-mode alphabet, symmetric duplicates removed, pairs without a write/read or write/write collision dropped) x layouts x commit modes x backends; " +
 			"for each, every interleaving of the seam events (TSO requests, store RPCs incl. background ones, API call boundaries, virtual back-off timers) with at most P preemptions is executed on the real client code; " +
 			"the SI auditor checks every execution against the MVCC ground truth read from the store. distinct_nontrivial = distinct (scenario, outcome+read-results) classes with at least one conflict-capable pair",
